@@ -858,6 +858,11 @@ def r01i(model, ctx):
         if ok:
             m = pmatch("_V_X.as_signed()", rs[0].value)
             ok = m is not None and dump(m["_V_X"]) == dump(ru[0].value)
+            if not ok and m is not None:
+                # the sign IS kept (as_signed() is applied); whether the construction underneath equals the unsigned branch's
+                # is not decided here once the two are spelt differently (e.g. the clamp folded into the slice bound)
+                need(False, f"Value.{meth}: signed branch `{unparse(rs[0].value)}` is not the unsigned branch's expression with "
+                            f".as_signed(); equivalence of the two constructions is not decided")
         ctx.check(ok, R, f"Value.{meth}:sign", "signed result = unsigned construction reinterpreted with as_signed()",
                   f"Value.{meth}: the signed branch must be the unsigned branch's expression with .as_signed() (the sign must not "
                   f"be lost); found {unparse(rs[0].value) if rs else '-'} / {unparse(ru[0].value) if ru else '-'}", f"{AST_PY}:{f.lineno}")
